@@ -13,6 +13,7 @@
 //   a r bytes(path)*     load the file through r's readers (bytes, stream, wrap); flags + printable observation
 //   b r byte*            load the inline image through r's readers; same output as `a` (baseline corpus)
 //   c r byte*            compare the image r writes now with the inline image (baseline corpus)
+//   d r path byte*       hand-made (hostile) image through r's reader `path`, guarded like one step of op 5
 //   63 seed              reseed the random source
 #define SERDE_DEFINE_ALLOC
 #ifdef SERDE_PREBUILT   // the family adapters were compiled separately (serde_fams.hpp with -DSERDE_GROUP=1..5) and are linked in
@@ -118,6 +119,13 @@ static void handler(const Line& t, Out& o) {
     else if (cur.size() != img.size()) o.R(-2);
     else if (x.unordered_layout(cur) && x.canon(cur) == x.canon(img)) o.R(3);
     else o.R(0);
+    break; }
+  case 0xd: {   // hand-made (hostile) inline image through r's readers, guarded: R = total(1) + the counters of a guarded loop
+    Obj& x = get(t.at(1));
+    int path = (int)t.at(2);
+    Bytes img; for (size_t i = 3; i < t.size(); ++i) img.push_back((uint8_t)t[i]);
+    LoopResult r = guarded_loop(0, 1, [&](long) { return attempt(x, path, img.data(), img.size(), nullptr); });
+    emit_loop(o, r, 1);
     break; }
   default: o.R(-2);
   }
